@@ -233,14 +233,14 @@ struct Explorer
                 if (tgt.size() > 0)
                 {
                     auto k = w.key(op.other);
-                    tgt[0] = T(77);
+                    assign_value(tgt[0], 77);
                     if (w.key(op.other) != k)
                         out.findings.push_back({ "C07", "copy-not-independent", "writing the copy changed the source; " + after });
                 }
                 if (src.size() > 0)
                 {
                     auto k = w.key(op.slot);
-                    src[0] = T(88);
+                    assign_value(src[0], 88);
                     if (w.key(op.slot) != k)
                         out.findings.push_back({ "C07", "copy-not-independent", "writing the source changed the copy; " + after });
                 }
@@ -340,7 +340,7 @@ struct Explorer
         }
         rep.notes.clear();
         for (auto& k : fresh)
-            total.states.insert(mc::hash(k));
+            total.states.insert(mc::hash(cfg.type_name + k));
         if (rep.counters.count("shards_abandoned") || rep.counters.count("lost_shard_prefixes"))
             exhaustive = false;
         total.merge(rep);
